@@ -3,6 +3,10 @@
      G <n> (<mp> <app>)*n Q <query>*                  mounted pools + request queries
      S <throws> V<n> (k v)* <site> Q <query>*         (abstract only) site; prepared into a T line
      W N<n> (<pat> <rewrite pattern hex> <final>)*n Q <url hex>*     url_rewriter rules + urls
+     L N<n> (<kind> <mp> <app>)*n Q <op>*             both mount lists of the applications pool; kind f|p|y (list apps) | a (legacy list);
+                                                      op = m <i> | q <host> <script> <path> <method> | x <i> | u <i> | o
+     C N<n> (<kind> <mp> <app>)*n Q <op>*             the same behind the SCGI / FastCGI front ends; op = m <i> | x <i> | u <i> | c <s|f> <host> <script> <path> <method>
+     F R<k> rules SN<j> names N<n> (<kind> <mp> <app>)*n Q <op>*     the same behind the http front end; op = m <i> | x <i> | u <i> | r <host> <uri> <method>
    Patterns are "<hex of pattern text>:<ast>" (concrete) or "<ast>" (abstract).  With --prepare the
    driver reads abstract lines and prints the concrete lines, the pattern / template texts being
    produced by the verified printers (rprint, route_template, build). *)
@@ -88,7 +92,8 @@ let natt () = nat_of_int (int_of_string (next ()))
 let rd_opt () : dopt =
   match next () with
   | "H" ->
-      let k = (match next () with "a" -> KAssign | "m" -> KMap | "i" -> KMapInt | _ -> bad "kind") in
+      let k = (match next () with "a" | "g" -> KAssign | "m" -> KMap | "i" -> KMapNum TInt | "u" -> KMapNum TUInt | "l" -> KMapNum TLLong
+                                | "w" -> KMapNum TULLong | "h" -> KMapNum TShort | "k" -> KMapNum TUShort | _ -> bad "kind") in
       let p = pat_tok () in
       let mf = if peek () = "@" then (ignore (next ()); MAny)
                else (match pat_tok () with PRe e -> MPat e | PRoute r -> MPat (route_re r)) in
@@ -133,7 +138,8 @@ let rd_mp () : mpoint =
 (* ---------- printers of concrete lines ---------- *)
 let wr_opt = function
   | DH (k, p, mf, hid, sel) ->
-      Printf.sprintf "H %s %s %s %d %d%s" (match k with KAssign -> "a" | KMap -> "m" | KMapInt -> "i") (wr_pat p)
+      Printf.sprintf "H %s %s %s %d %d%s" (match k with KAssign -> "a" | KMap -> "m" | KMapNum TInt -> "i" | KMapNum TUInt -> "u" | KMapNum TLLong -> "l"
+                                 | KMapNum TULLong -> "w" | KMapNum TShort -> "h" | KMapNum TUShort -> "k") (wr_pat p)
         (match mf with MAny -> "@" | MPat e -> wr_pat (PRe e)) (int_of_n hid) (List.length sel)
         (String.concat "" (List.map (fun s -> " " ^ string_of_int (int_of_nat s)) sel))
   | DM (p, sel, kid) -> Printf.sprintf "X %s %d %d" (wr_pat p) (int_of_nat sel) (int_of_nat kid)
@@ -159,7 +165,8 @@ let rd_pos t = if t = "r" then [] else List.map (fun x -> nat_of_int (int_of_str
 
 let rec app_supported (App (_, _, kids, _) as a) = mounts_once a && List.for_all app_supported kids
 
-let eval_tree_queries throws vals root =
+let eval_tree_queries throws vals0 root =
+  let cur = ref vals0 in
   let out = ref [] in
   while !toks <> [] do
     let r =
@@ -168,12 +175,16 @@ let eval_tree_queries throws vals root =
                (match c with Some _ -> wr_outcome (app_main root url c) | None -> wr_outcome (dispatch root url c))
       | "m" -> let pos = rd_pos (next ()) in let key = hexb () in let np = int_of_string (next ()) in
                let ps = times np hexb in
-               (match map_output throws (map_at root vals pos key ps) with Some u -> "U " ^ hex_of_bytes u | None -> "E")
+               (match map_output throws (map_at root !cur pos key ps) with Some u -> "U " ^ hex_of_bytes u | None -> "E")
       | "x" -> let pos = rd_pos (next ()) in let key = hexb () in let _exp = next () in
                let np = int_of_string (next ()) in let ps = times np hexb in
-               (match map_output throws (map_at root vals pos key ps) with
+               (match map_output throws (map_at root !cur pos key ps) with
                 | Some u -> "U " ^ hex_of_bytes u ^ " " ^ wr_outcome (app_main root u (Some [byte_tab.(71); byte_tab.(69); byte_tab.(84)]))
                 | None -> "E")
+      | "sv" -> let k = hexb () in let v = hexb () in
+                cur := List.filter (fun (k', _) -> k' <> k) !cur @ [(k, v)]; "s"
+      | "cv" -> let k = hexb () in
+                cur := List.filter (fun (k', _) -> k' <> k) !cur; "c"
       | q -> bad ("query " ^ q) in
     out := r :: !out
   done;
@@ -210,6 +221,129 @@ let eval_line (ts : string list) : string =
           out := r :: !out
         done;
         String.concat " | " (List.rev !out)
+      end
+  | ("L" | "C") as lkind ->
+      let cgi = lkind = "C" in
+      let n = counted 'N' in
+      let decls = Array.of_list (times n (fun () -> let k = next () in let mp = rd_mp () in let a = rd_app () in (k, mp, a))) in
+      expect "Q";
+      if !mismatch then "PRINT-MISMATCH" else begin
+        let st = ref ps_empty in
+        let hist = ref [] in            (* the same history for the verified trace functions run / run_ref *)
+        let answers = ref [] in
+        let mounted = Array.make n false in
+        let requested = Array.make n false in
+        let idx () = let i = int_of_string (next ()) in if i < 0 || i >= n then bad "index" else i in
+        let appof id = let i = int_of_nat id in
+          if i < n && mounted.(i) then (let (_, _, a) = decls.(i) in Some a) else None in
+        let out = ref [] in
+        let unsupported = ref None in
+        while !toks <> [] && !unsupported = None do
+          let r =
+            match next () with
+            | "m" -> let i = idx () in
+                     let (k, mp, _) = decls.(i) in
+                     if mounted.(i) then (unsupported := Some "mount index"; "")
+                     else begin
+                       mounted.(i) <- true;
+                       (match k with
+                        | "a" -> st := mount_legacy !st mp (nat_of_int i); hist := OMountLegacy (mp, nat_of_int i) :: !hist
+                        | "f" | "p" | "y" -> st := mount_app !st mp (nat_of_int i); hist := OMountApp (mp, nat_of_int i) :: !hist
+                        | _ -> bad "mount kind");
+                       "m"
+                     end
+            | ("q" | "c") as op when (op = "c") = cgi ->
+                     if cgi then ignore (next ());
+                     let h = hexb () in let s = hexb () in let p = hexb () in let m = hexb () in
+                     let (r, st') = route_ps !st appof h s p m in
+                     st := st';
+                     hist := OLookup (h, s, p) :: !hist;
+                     answers := (match r with RNoPool -> None | RApp (id, sub, _) -> Some (id, sub)) :: !answers;
+                     (match r with
+                      | RNoPool -> if cgi then "404" else "-"
+                      | RApp (id, sub, o) -> requested.(int_of_nat id) <- true;
+                                             if cgi then (match o with NotFound -> "404" | _ -> wr_outcome o)
+                                             else Printf.sprintf "%d %s %s" (int_of_nat id) (hex_of_bytes sub) (wr_outcome o))
+            | "x" -> let i = idx () in
+                     let (k, _, _) = decls.(i) in
+                     if k <> "a" || not mounted.(i) then (unsupported := Some "kill index"; "")
+                     else if not requested.(i) then (unsupported := Some "kill before the first request"; "")
+                     else (st := kill !st (nat_of_int i); hist := OKill (nat_of_int i) :: !hist; "x")
+            | "u" -> let i = idx () in
+                     let (k, _, _) = decls.(i) in
+                     if (k <> "p" && k <> "y") || not mounted.(i) then (unsupported := Some "unmount index"; "")
+                     else (st := unmount !st (nat_of_int i); hist := OUnmount (nat_of_int i) :: !hist; "u")
+            | "o" -> let present = List.map int_of_nat (legacy_ids !st) in
+                     let gone = List.filter (fun i -> let (k, _, _) = decls.(i) in k = "a" && mounted.(i) && requested.(i) && not (List.mem i present))
+                                  (List.init n (fun i -> i)) in
+                     "P:" ^ String.concat "," (List.map string_of_int gone)
+            | q -> bad ("op " ^ q) in
+          out := r :: !out
+        done;
+        let ops = List.rev !hist in
+        if run ps_empty ops <> List.rev !answers || run_ref ps_empty ops <> List.rev !answers then "MODEL-INCONSISTENT" else
+        match !unsupported with
+        | Some w -> String.concat " | " (List.rev (("UNSUPPORTED-HARNESS " ^ w) :: List.tl !out))
+        | None -> String.concat " | " (List.rev !out)
+      end
+  | "F" ->
+      let k = counted 'R' in
+      let rules = times k (fun () -> let p = pat_tok () in let pat = hexb () in let fin = next () = "1" in (p, pat, fin)) in
+      let j = (match next () with t when String.length t > 2 && String.sub t 0 2 = "SN" -> int_of_string (String.sub t 2 (String.length t - 2)) | _ -> bad "SN") in
+      let names = times j hexb in
+      let n = counted 'N' in
+      let decls = Array.of_list (times n (fun () -> let k = next () in let mp = rd_mp () in let a = rd_app () in (k, mp, a))) in
+      expect "Q";
+      if !mismatch then "PRINT-MISMATCH" else begin
+        let rs = List.map (fun (p, pat, fin) -> mk_rule p pat fin) rules in
+        if List.exists (fun r -> r = None) rs then "CONSTRUCT-ERROR" else begin
+          let rs = List.map (function Some r -> r | None -> bad "rule") rs in
+          let st = ref ps_empty in
+          let mounted = Array.make n false in
+          let requested = Array.make n false in
+          let idx () = let i = int_of_string (next ()) in if i < 0 || i >= n then bad "index" else i in
+          let appof id = let i = int_of_nat id in
+            if i < n && mounted.(i) then (let (_, _, a) = decls.(i) in Some a) else None in
+          let out = ref [] in
+          let unsupported = ref None in
+          while !toks <> [] && !unsupported = None do
+            let r =
+              match next () with
+              | "m" -> let i = idx () in
+                       let (k, mp, _) = decls.(i) in
+                       if mounted.(i) then (unsupported := Some "mount index"; "")
+                       else begin
+                         mounted.(i) <- true;
+                         (match k with
+                          | "a" -> st := mount_legacy !st mp (nat_of_int i)
+                          | "f" | "p" | "y" -> st := mount_app !st mp (nat_of_int i)
+                          | _ -> bad "mount kind");
+                         "m"
+                       end
+              | "x" -> let i = idx () in
+                       let (k, _, _) = decls.(i) in
+                       if k <> "a" || not mounted.(i) then (unsupported := Some "kill index"; "")
+                       else if not requested.(i) then (unsupported := Some "kill before the first request"; "")
+                       else (st := kill !st (nat_of_int i); "x")
+              | "u" -> let i = idx () in
+                       let (k, _, _) = decls.(i) in
+                       if (k <> "p" && k <> "y") || not mounted.(i) then (unsupported := Some "unmount index"; "")
+                       else (st := unmount !st (nat_of_int i); "u")
+              | "r" -> let h = hexb () in let uri = hexb () in let m = hexb () in
+                       let (r, st') = serve_ps rs names !st appof h uri m in
+                       st := st';
+                       (match r with
+                        | Bad400 -> "400"
+                        | Served RNoPool -> "404"
+                        | Served (RApp (id, _, o)) -> requested.(int_of_nat id) <- true;
+                                                      (match o with NotFound -> "404" | _ -> wr_outcome o))
+              | q -> bad ("op " ^ q) in
+            out := r :: !out
+          done;
+          match !unsupported with
+          | Some w -> String.concat " | " (List.rev (("UNSUPPORTED-HARNESS " ^ w) :: List.tl !out))
+          | None -> String.concat " | " (List.rev !out)
+        end
       end
   | "W" ->
       let n = counted 'N' in
@@ -265,6 +399,22 @@ let prepare_line (ts : string list) : string =
       let pools = times n (fun () -> let mp = rd_mp () in let a = rd_app () in (mp, a)) in
       expect "Q";
       String.concat " " (["G"; Printf.sprintf "N%d" n] @ List.map (fun (mp, a) -> wr_mp mp ^ " " ^ wr_app a) pools @ ["Q"] @ !toks)
+  | ("L" | "C") as lkind ->
+      let n = counted 'N' in
+      let decls = times n (fun () -> let k = next () in let mp = rd_mp () in let a = rd_app () in (k, mp, a)) in
+      expect "Q";
+      String.concat " " ([lkind; Printf.sprintf "N%d" n] @ List.map (fun (k, mp, a) -> k ^ " " ^ wr_mp mp ^ " " ^ wr_app a) decls @ ["Q"] @ !toks)
+  | "F" ->
+      let k = counted 'R' in
+      let rules = times k (fun () -> let (_, p) = rd_pat (next ()) in let pat = next () in let fin = next () in (p, pat, fin)) in
+      let sn = next () in
+      let j = int_of_string (String.sub sn 2 (String.length sn - 2)) in
+      let names = times j (fun () -> next ()) in
+      let n = counted 'N' in
+      let decls = times n (fun () -> let k = next () in let mp = rd_mp () in let a = rd_app () in (k, mp, a)) in
+      expect "Q";
+      String.concat " " (["F"; Printf.sprintf "R%d" k] @ List.map (fun (p, pat, fin) -> wr_pat p ^ " " ^ pat ^ " " ^ fin) rules
+                         @ [sn] @ names @ [Printf.sprintf "N%d" n] @ List.map (fun (k, mp, a) -> k ^ " " ^ wr_mp mp ^ " " ^ wr_app a) decls @ ["Q"] @ !toks)
   | "W" ->
       let n = counted 'N' in
       let rules = times n (fun () -> let (_, p) = rd_pat (next ()) in let pat = next () in let fin = next () in (p, pat, fin)) in
